@@ -463,7 +463,10 @@ func (g *graph) addBranch(startNode string, branch *GraphBranch, skipData bool) 
 	}
 	branch.idx = len(g.handlerPreBranch[startNode])
 
-	if startNode != START && g.nodes[startNode].executorMeta.component == ComponentOfPassthrough {
+	// a passthrough node that has no type yet takes the branch's; one that has already been typed
+	// by an edge keeps its type and is checked against the branch like any other node
+	if startNode != START && g.nodes[startNode].executorMeta.component == ComponentOfPassthrough &&
+		g.nodes[startNode].cr.inputType == nil {
 		g.nodes[startNode].cr.inputType = branch.inputType
 		g.nodes[startNode].cr.outputType = branch.inputType
 		g.nodes[startNode].cr.genericHelper = branch.genericHelper.forPredecessorPassthrough()
